@@ -40,7 +40,6 @@ template <class KE, class VE> struct MapRun {
 
     explicit MapRun(Run& r) : R(r), a(0), b(0), justRehashed(false) {
         R.apiClass = "XalanMap";
-        R.apiMethods = "insert,erase,find,operator[],clear,swap,operator=,begin,end,size,empty,XalanMap";
         const Json& kn = R.plan.at("knobs");
         static const double lfs[] = { 0.5, 0.75, 1.0, 2.0, 4.0 };
         lfA = lfs[(unsigned)kn.num("lfA", 1) % 5]; lfB = lfs[(unsigned)kn.num("lfB", 1) % 5];
@@ -190,7 +189,6 @@ template <class E> struct SetRun {
 
     explicit SetRun(Run& r) : R(r), a(0), b(0), erases(0), grew(false) {
         R.apiClass = "XalanSet";
-        R.apiMethods = "insert,erase,find,count,clear,operator=,begin,end,size,XalanSet";
         hashMode() = (int)(R.plan.at("knobs").num("hash", 0) % 3);
         a = new S_(R.mm); b = new S_(R.mm);
         R.snapshot = [this] { Json o = Json::object(); o["op"] = "force_state"; o["a"] = jsonMap(ma); o["b"] = jsonMap(mb); return o; };
